@@ -90,10 +90,10 @@ def mutations(ctx, config, rng, C, Co, H, Ho, pr, extra, tag, full_flips=False):
 def wl_refprover(ctx, config):
     rng = ctx.rng
     did_full = False
-    for it in range(ctx.n(110, 2600)):
+    for it in range(ctx.n(110, 1000)):
         H, Ho = gen_pair(ctx, config, rng)
         kind = it % 11
-        exp = rng.choice((0, 0, 1, 2, 5, 18)); mant = rng.choice((1, 2, 3, 4, 5, 6, 7, 8)) if ctx.quick or rng.random() < 0.9 else rng.choice((16, 31, 32, 63, 64))
+        exp = rng.choice((0, 0, 1, 2, 5, 18)); mant = rng.choice((1, 2, 3, 4, 5, 6, 7, 8)) if ctx.quick or rng.random() < 0.95 else rng.choice((16, 31, 32, 63, 64))
         minv = rng.choice((0, 0, 1, 7, 10**6, 2**32)); kw = {}; cls = "valid"
         no_range = False
         if kind == 1: kw["reserved"] = 1; cls = "reserved_bit"
@@ -135,9 +135,9 @@ def wl_refprover(ctx, config):
 
 def wl_libproofs(ctx, config):
     rng = ctx.rng
-    for it in range(ctx.n(70, 1600)):
+    for it in range(ctx.n(70, 700)):
         H, Ho = gen_pair(ctx, config, rng)
-        exp = rng.choice((-1, 0, 0, 1, 3, 18)); min_bits = rng.choice((0, 0, 1, 2, 3, 5, 8)) if ctx.quick or rng.random() < 0.9 else rng.choice((32, 64))
+        exp = rng.choice((-1, 0, 0, 1, 3, 18)); min_bits = rng.choice((0, 0, 1, 2, 3, 5, 8)) if ctx.quick or rng.random() < 0.95 else rng.choice((32, 64))
         value = rng.choice((0, 1, 2, 100, 12345, 2**20 + 1)) if min_bits < 32 else rng.randrange(2**40)
         minv = rng.choice((0, 0, value, value // 2, max(value - 1, 0)))
         blind = rng.randrange(1, n); nonce = pools.rbytes(rng, 32); extra = pools.rbytes(rng, rng.choice((0, 5, 33)))
@@ -162,7 +162,7 @@ def wl_libproofs(ctx, config):
 
 def wl_garbage(ctx, config):
     rng = ctx.rng
-    for it in range(ctx.n(300, 8000)):
+    for it in range(ctx.n(300, 6000)):
         H, Ho = gen_pair(ctx, config, rng); C = mulG(rng.randrange(1, n)); Co = commit_obj(ctx, config, C)
         L = rng.choice((0, 1, 64, 65, 66, 97, 98, 99, 130, 162, 200, 700, 5134, 5135)) if rng.random() < 0.7 else rng.randrange(0, 800)
         pf = bytearray(pools.rbytes(rng, L))
